@@ -1,1 +1,72 @@
-(* Props/C09.v -- stub, to be filled *)
+(* Props/C09.v -- pinned statements of property C09 (logic core; "rustc accepts" as a whole is tie-only, DESIGN.md 8).
+
+   C09 is claimed PARTIAL: the theorems below cover the identifiers the generator derives from ASN.1 component /
+   alternative / item / type names (legal Rust identifiers, not keywords, outside the named known classes).  Collision
+   freedom is refuted (the tool neither renames nor rejects), constants/derives/type checking are covered by the
+   rustc stage of checks/C09.py only. *)
+From A1 Require Import Base.Res Gen.Keywords Front.Codegen Front.CodegenProofs.
+From Coq Require Import String.
+Local Open Scope N_scope.
+
+(* Every ASN.1 identifier (X.680 12.3) used as a component name is emitted as a legal Rust identifier that is not a
+   keyword -- unless its mangled form is a keyword the generator's escape list (Gen/Keywords.v) misses. *)
+Theorem C09_field_idents_legal : forall s,
+  asn_identifier s = true -> ~ Known_C09_keyword s ->
+  is_rust_ident (emit_field s) = true /\ is_keyword (emit_field s) = false.
+Proof. exact field_idents_legal. Qed.
+
+(* ... and the known class is inhabited on the current tree: `match` (and every keyword missing from KEYWORDS) is emitted verbatim *)
+Theorem C09_refuted_keyword : exists s,
+  asn_identifier s = true /\ Known_C09_keyword s /\ is_keyword (emit_field s) = true.
+Proof. exists (codes "match"). vm_compute. repeat split; reflexivity. Qed.
+
+(* the complete list of component names whose emitted form is a keyword: RUST_KEYWORDS minus KEYWORDS, lower-case ones *)
+Definition unescaped_keywords : list (list N) :=
+  filter (fun k => asn_identifier k && is_keyword (emit_field k)) RUST_KEYWORDS.
+Theorem C09_refuted_keyword_count : List.length unescaped_keywords = 41%nat.
+Proof. vm_compute. reflexivity. Qed.
+
+(* alternative / ENUMERATED item names (identifiers) and type names (typereferences) become variants / type names *)
+Theorem C09_variant_idents_legal : forall s,
+  (asn_identifier s = true \/ asn_typereference s = true) -> ~ Known_C09_variant s ->
+  is_rust_ident (emit_variant s) = true /\ is_keyword (emit_variant s) = false.
+Proof. exact variant_idents_legal. Qed.
+
+Theorem C09_type_idents_legal : forall s,
+  asn_typereference s = true -> ~ Known_C09_variant s ->
+  is_rust_ident (emit_type s) = true /\ is_keyword (emit_type s) = false.
+Proof. exact type_idents_legal. Qed.
+
+(* the known class of the two theorems above: the item/alternative `self` and the type `Self` become the keyword `Self` *)
+Theorem C09_refuted_variant_Self : exists s,
+  asn_identifier s = true /\ Known_C09_variant s /\ is_keyword (emit_variant s) = true.
+Proof. exists (codes "self"). vm_compute. repeat split; reflexivity. Qed.
+
+(* distinct ASN.1 names are mangled to one Rust name: components foo-bar / fooBar, types Foo-Bar / FooBar, items likewise *)
+Theorem C09_mangle_collision_refuted :
+  (exists a b, a <> b /\ asn_identifier a = true /\ asn_identifier b = true /\ emit_field a = emit_field b) /\
+  (exists a b, a <> b /\ asn_identifier a = true /\ asn_identifier b = true /\ emit_variant a = emit_variant b) /\
+  (exists a b, a <> b /\ asn_typereference a = true /\ asn_typereference b = true /\ emit_type a = emit_type b).
+Proof.
+  split; [|split].
+  - exists (codes "foo-bar"), (codes "fooBar"). split; [discriminate|]. vm_compute. repeat split; reflexivity.
+  - exists (codes "foo-bar"), (codes "fooBar"). split; [discriminate|]. vm_compute. repeat split; reflexivity.
+  - exists (codes "Foo-Bar"), (codes "FooBar"). split; [discriminate|]. vm_compute. repeat split; reflexivity.
+Qed.
+
+(* non-vacuity: the hypotheses of the legality theorems are inhabited, and an escaped keyword is covered by them *)
+Example C09_nonvacuous_field :
+  asn_identifier (codes "type") = true /\ ~ Known_C09_keyword (codes "type") /\ emit_field (codes "type") = codes "type_".
+Proof. split; [reflexivity|]. split; [|reflexivity]. intros [_ H]. vm_compute in H. discriminate. Qed.
+
+Example C09_nonvacuous_variant :
+  asn_identifier (codes "dark-blue") = true /\ ~ Known_C09_variant (codes "dark-blue") /\ emit_variant (codes "dark-blue") = codes "DarkBlue".
+Proof. split; [reflexivity|]. split; [|reflexivity]. intros H. vm_compute in H. discriminate. Qed.
+
+Print Assumptions C09_field_idents_legal.
+Print Assumptions C09_refuted_keyword.
+Print Assumptions C09_refuted_keyword_count.
+Print Assumptions C09_variant_idents_legal.
+Print Assumptions C09_type_idents_legal.
+Print Assumptions C09_refuted_variant_Self.
+Print Assumptions C09_mangle_collision_refuted.
